@@ -195,6 +195,7 @@ func spliceOnce(t *rapid.T, p *Prog) {
 		node = fmt.Sprintf("{{range $.L%d}}%s{{end}}", l, body)
 	}
 	cl := classify(s, i)
+	flagAssembled(p, s[:i], node, s[i+n:])
 	flagBoundary(p, s[:i], s[i:])
 	if n > 0 {
 		flagBoundary(p, s[:i+n], s[i+n:])
@@ -393,7 +394,50 @@ func Region(t *rapid.T, p *Prog) {
 	}
 	flagBoundary(p, s[:i], s[i:])
 	flagBoundary(p, s[:j], s[j:])
+	flagAssembled(p, s[:i], node, s[j:])
 	p.Main = s[:i] + node + s[j:]
 	addFlag(p, "splice")
 	addFlag(p, "region:"+op)
+}
+
+// flagAssembled: the static texts inside the inserted node (branch bodies), repeated up to twice (loop iterations),
+// complete a comment end together with the text around the node: the same K-cmt zone as a split comment end.
+func flagAssembled(p *Prog, before, node, after string) {
+	if e := strings.Index(after, "{{"); e >= 0 {
+		after = after[:e]
+	}
+	var bodies []string
+	rest := node
+	for {
+		a := strings.Index(rest, "}}")
+		if a < 0 {
+			break
+		}
+		rest = rest[a+2:]
+		b := strings.Index(rest, "{{")
+		if b < 0 {
+			break
+		}
+		if b > 0 {
+			bodies = append(bodies, rest[:b])
+		}
+		rest = rest[b:]
+	}
+	bt, ah := before, after
+	if len(bt) > 3 {
+		bt = bt[len(bt)-3:]
+	}
+	if len(ah) > 3 {
+		ah = ah[:3]
+	}
+	for _, body := range bodies {
+		for k := 1; k <= 3; k++ {
+			j := bt + strings.Repeat(body, k) + ah
+			for _, pat := range []string{"-->", "--!>"} {
+				if strings.Contains(j, pat) && !strings.Contains(bt+ah, pat) {
+					addFlag(p, "zone:K-cmt")
+				}
+			}
+		}
+	}
 }
